@@ -29,7 +29,6 @@ import (
 	"io"
 	"math"
 	"net"
-	"sort"
 	"strconv"
 	"sync"
 	"sync/atomic"
@@ -171,7 +170,27 @@ type c01Track struct {
 	useFreed   int // ReadOnlyData() on a freed buffer
 	dropped    bool // handed in for a stream that was already cleaned up (expected to be ignored)
 	data       []byte
+	handle     *[]byte // pooled backing array of data
 }
+
+// c01ChunkPool recycles payload backing arrays between runs (a run copies the
+// payload into them, Free poisons them).
+var c01ChunkPool = sync.Pool{New: func() any { b := make([]byte, c01BufChunk); return &b }}
+
+// c01Parser is the oracle's independent frame reader. It is recycled between
+// runs only when it is in its initial protocol state (no header block open, no
+// error), so that a run does not pay for a new read buffer.
+type c01Parser struct {
+	feed *c01Feed
+	rd   *http2.Framer
+}
+
+var c01ParserPool = sync.Pool{New: func() any {
+	p := &c01Parser{feed: &c01Feed{}}
+	p.rd = http2.NewFramer(io.Discard, p.feed)
+	p.rd.SetMaxReadFrameSize(1<<24 - 1) // the oracle must be able to read (and report) oversized frames
+	return p
+}}
 
 // c01Buf wraps a buffer so that Ref/Free/ReadOnlyData are observable. The
 // embedded mem.Buffer only supplies the unexported interface methods.
@@ -216,9 +235,14 @@ func (b *c01Buf) Free() {
 
 // c01Conn is the in-memory connection: it records every byte written.
 type c01Conn struct {
-	mu  sync.Mutex
-	buf []byte
+	mu   sync.Mutex
+	base int    // bytes already parsed and dropped
+	buf  []byte // bytes written and not parsed yet
 }
+
+// c01ConnBufPool recycles the (large) recording buffers between runs; plain
+// memory, safe for concurrent use.
+var c01ConnBufPool = sync.Pool{New: func() any { b := make([]byte, 0, 160<<10); return &b }}
 
 func (c *c01Conn) Write(p []byte) (int, error) {
 	c.mu.Lock()
@@ -229,7 +253,7 @@ func (c *c01Conn) Write(p []byte) (int, error) {
 func (c *c01Conn) size() int {
 	c.mu.Lock()
 	defer c.mu.Unlock()
-	return len(c.buf)
+	return c.base + len(c.buf)
 }
 func (c *c01Conn) Read([]byte) (int, error)         { return 0, io.EOF }
 func (c *c01Conn) Close() error                     { return nil }
@@ -288,17 +312,65 @@ type c01LS struct {
 	aborted                  bool // server: earlyAbortStream
 	hdrExp                   [][]hpack.HeaderField
 	hdrSeen                  int // complete header blocks seen on the wire
-	exp                      []byte
+	msgs                     []c01Msg // what the application wrote, in put order
+	total                    int      // its length in bytes (5-byte prefixes included)
+	cur                      int      // index of the first message that is not completely on the wire
 	sent                     int
-	msgEnds                  []int // stream offsets where messages end
 	wu, data                 int64
 	endPut, endSeen          bool
 	trailersPut, trailersSeen bool
 	cleanupPut               bool // a cleanupStream item was put (data put later is expected to be dropped)
 	closed                   bool // loopy consumed the cleanupStream item (seen through its onWrite hook)
-	rstExp                   int
+	trailersRst              bool // the trailers carry a cleanupStream with rst
+	rstAllowed               int  // RST_STREAM frames that were asked for and are not on the wire yet
 	rstSeen                  bool
 	frames                   int
+}
+
+// c01Msg is one message the application wrote: h || c01Pattern[start:start+n].
+type c01Msg struct {
+	off   int // stream offset of h[0]
+	n     int
+	start int
+	h     [5]byte
+}
+
+// match compares p with the expected stream bytes at [off, off+len(p)); it
+// returns the stream offset of the first difference or -1.
+func (ls *c01LS) match(off int, p []byte) int {
+	pos := off
+	for i := ls.cur; i < len(ls.msgs) && len(p) > 0; i++ {
+		m := &ls.msgs[i]
+		end := m.off + 5 + m.n
+		if pos >= end {
+			continue
+		}
+		for pos < m.off+5 && len(p) > 0 {
+			if p[0] != m.h[pos-m.off] {
+				return pos
+			}
+			p = p[1:]
+			pos++
+		}
+		if len(p) == 0 {
+			break
+		}
+		k := min(len(p), end-pos)
+		a := m.start + pos - m.off - 5
+		if !bytes.Equal(p[:k], c01Pattern[a:a+k]) {
+			for j := 0; j < k; j++ {
+				if p[j] != c01Pattern[a+j] {
+					return pos + j
+				}
+			}
+		}
+		p = p[k:]
+		pos += k
+	}
+	if len(p) > 0 {
+		return pos
+	}
+	return -1
 }
 
 type c01Frame struct {
@@ -348,7 +420,7 @@ func (l *c01Ledger) live(ls *c01LS) bool {
 // pending: the application handed in something for this stream that is not on
 // the wire yet.
 func (l *c01Ledger) pending(ls *c01LS) bool {
-	return ls.sent < len(ls.exp) || (ls.endPut && !ls.endSeen)
+	return ls.sent < ls.total || (ls.endPut && !ls.endSeen)
 }
 
 func (l *c01Ledger) eligible(ls *c01LS) bool {
@@ -374,6 +446,8 @@ func (l *c01Ledger) fail(prop, key, format string, a ...any) { l.w.fail(prop, ke
 func (l *c01Ledger) streamFrame(ls *c01LS, f c01Frame) {
 	isRST := f.typ == http2.FrameRSTStream
 	switch {
+	case ls.rstSeen && isRST:
+		l.fail("C02", "rst-after-rst", "second RST_STREAM written for stream %d", ls.id)
 	case ls.rstSeen:
 		l.fail("C02", "frame-after-rst", "%v written after the RST_STREAM of stream %d", f, ls.id)
 	case ls.trailersSeen && !isRST:
@@ -422,28 +496,23 @@ func (l *c01Ledger) onFrame(fr http2.Frame) {
 			l.fail("C02", "data-before-headers", "%v before any HEADERS of that stream", f)
 		}
 		end := ls.sent + int(n)
-		if end > len(ls.exp) {
-			l.fail("C02", "data-beyond-written", "stream %d: %d DATA bytes on the wire but the application only wrote %d", ls.id, end, len(ls.exp))
-		} else if !bytes.Equal(payload, ls.exp[ls.sent:end]) {
-			i := 0
-			for i < len(payload) && payload[i] == ls.exp[ls.sent+i] {
-				i++
-			}
-			l.fail("C02", "payload-mismatch", "stream %d: DATA bytes [%d,%d) differ from what the application wrote, first at stream offset %d", ls.id, ls.sent, end, ls.sent+i)
-		}
-		for _, me := range ls.msgEnds {
-			if me > ls.sent && me > end && end > ls.sent {
-				// a message is only partly out after this frame
-				st.partialMsgs.Add(1)
-				break
-			}
+		if end > ls.total {
+			l.fail("C02", "data-beyond-written", "stream %d: %d DATA bytes on the wire but the application only wrote %d", ls.id, end, ls.total)
+		} else if d := ls.match(ls.sent, payload); d >= 0 {
+			l.fail("C02", "payload-mismatch", "stream %d: DATA bytes [%d,%d) differ from what the application wrote, first at stream offset %d", ls.id, ls.sent, end, d)
 		}
 		ls.sent = end
+		for ls.cur < len(ls.msgs) && ls.msgs[ls.cur].off+5+ls.msgs[ls.cur].n <= ls.sent {
+			ls.cur++
+		}
+		if ls.cur < len(ls.msgs) && ls.msgs[ls.cur].off < ls.sent && n > 0 {
+			st.partialMsgs.Add(1) // a message is only partly out after this frame
+		}
 		if fr.StreamEnded() {
 			if l.side == serverSide {
 				l.fail("C02", "server-data-end-stream", "server wrote END_STREAM on a DATA frame of stream %d (a server stream ends with trailers)", ls.id)
-			} else if !ls.endPut || ls.sent != len(ls.exp) {
-				l.fail("C02", "end-stream-early", "stream %d: END_STREAM on a DATA frame at stream offset %d but the application wrote %d bytes (last message put: %v)", ls.id, ls.sent, len(ls.exp), ls.endPut)
+			} else if !ls.endPut || ls.sent != ls.total {
+				l.fail("C02", "end-stream-early", "stream %d: END_STREAM on a DATA frame at stream offset %d but the application wrote %d bytes (last message put: %v)", ls.id, ls.sent, ls.total, ls.endPut)
 			}
 			ls.endSeen = true
 		}
@@ -499,10 +568,10 @@ func (l *c01Ledger) onFrame(fr http2.Frame) {
 			return
 		}
 		l.streamFrame(ls, f)
-		if ls.rstExp == 0 {
-			l.fail("C02", "unrequested-rst", "RST_STREAM on stream %d although nobody asked for one", ls.id)
+		if ls.rstAllowed == 0 {
+			l.fail("C02", "unrequested-rst", "RST_STREAM on stream %d although nobody asked for one (or before the writer consumed the request)", ls.id)
 		} else {
-			ls.rstExp--
+			ls.rstAllowed--
 		}
 		ls.rstSeen = true
 		l.prune()
@@ -563,10 +632,13 @@ func (l *c01Ledger) hbWrite(frag []byte, endHeaders bool) {
 		if !ls.trailersPut && !ls.aborted {
 			l.fail("C02", "unrequested-trailers", "stream %d: END_STREAM HEADERS on the wire but no trailers were handed in", ls.id)
 		}
-		if ls.sent != len(ls.exp) {
-			l.fail("C02", "trailers-before-data", "stream %d: trailers (HEADERS+END_STREAM) written after %d of the %d DATA bytes the application wrote before them", ls.id, ls.sent, len(ls.exp))
+		if ls.sent != ls.total {
+			l.fail("C02", "trailers-before-data", "stream %d: trailers (HEADERS+END_STREAM) written after %d of the %d DATA bytes the application wrote before them", ls.id, ls.sent, ls.total)
 		}
 		ls.trailersSeen = true
+		if (ls.trailersPut && ls.trailersRst) || (ls.aborted && ls.trailersRst) {
+			ls.rstAllowed++
+		}
 		l.prune()
 	}
 }
@@ -576,6 +648,7 @@ func (l *c01Ledger) hbWrite(frag []byte, endHeaders bool) {
 type c01Mark struct {
 	pos int
 	s   uint32
+	rst bool // an explicit cleanupStream{rst:true}: exactly one RST_STREAM follows
 }
 
 type c01App struct {
@@ -587,6 +660,7 @@ type c01World struct {
 	side    side
 	real    bool // the real run() goroutine consumes the control buffer
 	conn    *c01Conn
+	connBuf *[]byte
 	done    chan struct{}
 	cbuf    *controlBuffer
 	fr      *framer
@@ -606,6 +680,7 @@ type c01World struct {
 
 	fed       int
 	parsedPos int
+	parser    *c01Parser
 	feed      *c01Feed
 	rd        *http2.Framer
 	dec       *hpack.Decoder
@@ -639,15 +714,18 @@ func (w *c01World) fail(prop, key, format string, a ...any) {
 
 func c01NewWorld(sd side, stats *c01Stats, real bool) *c01World {
 	w := &c01World{side: sd, real: real, stats: stats}
-	w.conn = &c01Conn{buf: make([]byte, 0, 1<<12)}
+	w.connBuf = c01ConnBufPool.Get().(*[]byte)
+	w.conn = &c01Conn{buf: (*w.connBuf)[:0]}
 	w.done = make(chan struct{})
 	w.cbuf = newControlBuffer(w.done)
-	// real framer, private (unshared) 32 KiB write buffer as in the default transport config
-	w.fr = newFramer(w.conn, 32*1024, 0, false, math.MaxUint32, mem.DefaultBufferPool())
+	// real framer with the default 32 KiB write buffer, taken from the transport's
+	// shared write-buffer pool (the grpc.WithSharedWriteBuffer configuration; the
+	// pool is concurrency-safe by design), so that a run does not pay for zeroing a
+	// private one
+	w.fr = newFramer(w.conn, 32*1024, 0, true, math.MaxUint32, mem.DefaultBufferPool())
 	w.l = newLoopyWriter(sd, w.fr, w.cbuf, nil, w.conn, internalgrpclog.NewPrefixLogger(logger, "[c01] "), w.goAwayStub, mem.DefaultBufferPool())
-	w.feed = &c01Feed{}
-	w.rd = http2.NewFramer(io.Discard, w.feed)
-	w.rd.SetMaxReadFrameSize(1<<24 - 1) // the oracle must be able to read (and report) oversized frames
+	w.parser = c01ParserPool.Get().(*c01Parser)
+	w.feed, w.rd = w.parser.feed, w.parser.rd
 	w.dec = hpack.NewDecoder(4096, func(f hpack.HeaderField) { w.decFields = append(w.decFields, f) })
 	w.led = c01Ledger{side: sd, rrOn: true, connWin: c01InitWindow, iws: c01InitWindow, w: w}
 	return w
@@ -676,11 +754,38 @@ func (w *c01World) goAwayStub(g *goAway) (bool, error) {
 	return true, nil
 }
 
-func (w *c01World) mark(s uint32) {
+// release returns the recording buffer to the pool (the world must not be used
+// afterwards).
+func (w *c01World) release() {
+	w.fr.writer.Flush() // hands the shared write buffer back
+	if w.connBuf != nil {
+		w.conn.mu.Lock()
+		if cap(w.conn.buf) <= 1<<20 {
+			*w.connBuf = w.conn.buf[:0]
+			c01ConnBufPool.Put(w.connBuf)
+		}
+		w.conn.buf = nil
+		w.conn.mu.Unlock()
+		w.connBuf = nil
+	}
+	for _, t := range w.tracks {
+		if t.handle != nil {
+			c01ChunkPool.Put(t.handle)
+			t.handle, t.data = nil, nil
+		}
+	}
+	w.tracks = nil
+	if w.parser != nil && !w.broken && !w.led.hbOpen && len(w.feed.chunks) == 0 {
+		c01ParserPool.Put(w.parser)
+	}
+	w.parser = nil
+}
+
+func (w *c01World) mark(s uint32, rst bool) {
 	// runs on the goroutine that runs loopy: the write position is stable
 	pos := w.conn.size() + w.fr.writer.offset
 	w.marksMu.Lock()
-	w.marks = append(w.marks, c01Mark{pos: pos, s: s})
+	w.marks = append(w.marks, c01Mark{pos: pos, s: s, rst: rst})
 	w.marksMu.Unlock()
 }
 
